@@ -81,14 +81,15 @@ type c05Conn struct {
 	noDeadline bool      // SetReadDeadline fails (a conn without deadline support)
 	got        int       // bytes handed to the reader so far
 	rlog       []c05Read // every Read call: bytes handed out before it, len(p)
+	wcap       int64     // >= 0: Write accepts this many more bytes; the write that exceeds them is partial and fails
 }
 
 type c05Read struct{ have, size int }
 
 func c05Pair(w *c05World, a, b string) (*c05Conn, *c05Conn) {
 	h1, h2 := newC05Half(), newC05Half()
-	return &c05Conn{name: a, rd: h1, wr: h2, w: w, dlCh: make(chan struct{})},
-		&c05Conn{name: b, rd: h2, wr: h1, w: w, dlCh: make(chan struct{})}
+	return &c05Conn{name: a, rd: h1, wr: h2, w: w, dlCh: make(chan struct{}), wcap: -1},
+		&c05Conn{name: b, rd: h2, wr: h1, w: w, dlCh: make(chan struct{}), wcap: -1}
 }
 
 type c05Timeout struct{}
@@ -206,6 +207,21 @@ func (c *c05Conn) Write(p []byte) (int, error) {
 	defer c.wr.mu.Unlock()
 	if c.wr.eof || c.wr.readerGone {
 		return 0, &net.OpError{Op: "write", Net: "tcp", Err: os.NewSyscallError("write", syscall.EPIPE)}
+	}
+	if c.wcap >= 0 && int64(len(p)) > c.wcap {
+		// fault injection: the peer's receive side broke after c.wcap more bytes — partial write, then an error
+		// The failure is TRANSIENT (one shot, like an expired write deadline): correct code never writes again after a
+		// write error, so it cannot tell — code that swallows the error or retries the buffer shows a gap / a duplicate.
+		n := int(c.wcap)
+		c.wcap = -1
+		if n > 0 {
+			c.wr.q = append(c.wr.q, append([]byte(nil), p[:n]...))
+			c.wr.bump()
+		}
+		return n, &net.OpError{Op: "write", Net: "tcp", Err: os.NewSyscallError("write", syscall.EPIPE)}
+	}
+	if c.wcap >= 0 {
+		c.wcap -= int64(len(p))
 	}
 	c.wr.q = append(c.wr.q, append([]byte(nil), p...))
 	c.wr.bump()
@@ -480,6 +496,9 @@ func c05ControlPlane(t *testing.T, ud *c05Dialer) *ControlPlane {
 	gopt := &componentdialer.GlobalOption{Log: log, CheckInterval: time.Second}
 	d := componentdialer.NewDialer(ud, gopt, componentdialer.InstanceOption{DisableCheck: true},
 		&componentdialer.Property{Property: D.Property{Name: "scripted", Address: "up.example:1", Protocol: "scripted"}})
+	// a failing dial makes routeDial notify the dialer's health checker, which looks at the dialer's context: create
+	// that context's Done channel here, outside every synctest bubble, so that any bubble may receive from it
+	d.NotifyCheckTcp()
 	group := outbound.NewDialerGroup(gopt, "myout", []*componentdialer.Dialer{d},
 		[]*componentdialer.Annotation{{}},
 		outbound.DialerSelectionPolicy{Policy: consts.DialerSelectionPolicy_Fixed, FixedIndex: 0},
@@ -504,6 +523,31 @@ type c05Scn struct {
 	up      c05Script
 	kind    string
 	host    string // unique per scenario: SNI / Host header, i.e. the dial target of a sniffed connection
+	// faults (zero value = none)
+	noLcw    bool  // the client conn cannot half-close (no CloseWrite)
+	ucap     int64 // > 0: the upstream accepts ucap-1 bytes from the relay, then its write fails
+	ccap     int64 // > 0: same for the client
+	cancel   int64 // > 0: handleConn's context is cancelled at this time (µs)
+	dialFail bool  // the dial fails
+}
+
+func (s *c05Scn) faulty() bool { return s.ucap > 0 || s.ccap > 0 || s.cancel > 0 }
+
+func (s *c05Scn) faultToks() string {
+	out := ""
+	if s.ucap > 0 {
+		out += fmt.Sprintf(" ucap=%d", s.ucap-1)
+	}
+	if s.ccap > 0 {
+		out += fmt.Sprintf(" ccap=%d", s.ccap-1)
+	}
+	if s.cancel > 0 {
+		out += fmt.Sprintf(" cancel=%d", s.cancel)
+	}
+	if s.dialFail {
+		out += " dialfail=1"
+	}
+	return out
 }
 
 var c05HostSeq int
@@ -654,6 +698,12 @@ func c05RunBatch(t *testing.T, cp *ControlPlane, ud *c05Dialer, scns []*c05Scn) 
 			lives[i] = l
 			l.client, l.left = c05Pair(w, "client", "left")
 			l.upstream, l.right = c05Pair(w, "up", "right")
+			if s.ucap > 0 {
+				l.right.wcap = s.ucap - 1
+			}
+			if s.ccap > 0 {
+				l.left.wcap = s.ccap - 1
+			}
 			dst := netip.AddrPortFrom(netip.AddrFrom4([4]byte{93, 184, byte(1 + i/200), byte(1 + i%200)}), s.port)
 			l.left.local = net.TCPAddrFromAddrPort(dst)
 			l.left.remote = net.TCPAddrFromAddrPort(netip.AddrPortFrom(netip.MustParseAddr("192.168.1.10"), uint16(40000+i)))
@@ -680,6 +730,9 @@ func c05RunBatch(t *testing.T, cp *ControlPlane, ud *c05Dialer, scns []*c05Scn) 
 			l.left.mu.Lock()
 			l.detect = append([]c05Read(nil), l.left.rlog...)
 			l.left.mu.Unlock()
+			if l.s.dialFail {
+				return nil, &net.OpError{Op: "dial", Net: "tcp", Err: os.NewSyscallError("connect", syscall.ECONNREFUSED)}
+			}
 			l.wg.Add(2)
 			go l.upRecv.run(w, l.upstream, &l.wg)
 			go c05Play(w, l.upstream, l.s.up, &l.wg)
@@ -699,11 +752,29 @@ func c05RunBatch(t *testing.T, cp *ControlPlane, ud *c05Dialer, scns []*c05Scn) 
 			go func() {
 				defer all.Done()
 				l.crash = VRecover(func() string {
-					_ = cp.handleConn(context.Background(), l.left)
+					ctx := context.Background()
+					if l.s.cancel > 0 {
+						// the control plane's lifecycle context, cancelled (shutdown / reload) at l.s.cancel
+						c2, cancelFn := context.WithCancel(ctx)
+						tm := time.AfterFunc(time.Duration(l.s.cancel)*time.Microsecond-time.Since(w.t0), cancelFn)
+						defer tm.Stop()
+						defer cancelFn()
+						ctx = c2
+					}
+					var lc net.Conn = l.left
+					if l.s.noLcw {
+						lc = c05NoCW{l.left}
+					}
+					_ = cp.handleConn(ctx, lc)
 					return ""
 				})
 				l.ret = w.us()
+				// safety net: a handler that returns without closing a conn would leave that peer (and this bubble)
+				// blocked forever — close both after two idle hours; the peer then records an end of stream two hours
+				// late, which is what gets compared
+				leak := time.AfterFunc(2*time.Hour, func() { _ = l.left.Close(); _ = l.right.Close() })
 				l.wg.Wait()
+				leak.Stop()
 				if l.dialT >= 0 {
 					_ = l.upstream.Close() // its script may outlive the relay
 				}
@@ -735,8 +806,12 @@ func c05RunBatch(t *testing.T, cp *ControlPlane, ud *c05Dialer, scns []*c05Scn) 
 					racy = "instant-race"
 				}
 			}
-			if l.dialT >= 0 && s.up.finT <= l.dialT {
+			if l.dialT >= 0 && s.up.finT <= l.dialT && !s.dialFail {
 				racy = "upstream-ended-before-dial"
+			}
+			if s.cancel > 0 && (l.dialT < 0 || s.cancel <= l.dialT) {
+				// cancelled before the relay started: whether the dial still happens is the dialer's business
+				racy = "cancelled-before-dial"
 			}
 			if racy != "" {
 				res[i].why = racy
@@ -747,6 +822,10 @@ func c05RunBatch(t *testing.T, cp *ControlPlane, ud *c05Dialer, scns []*c05Scn) 
 				res[i].impl = fmt.Sprintf("dial=- armed=0 up=-#- upeof=%d cl=%s cleof=%d ret=%d", l.ret, l.clRecv.str(-1), l.clRecv.eofT, l.ret)
 				continue
 			}
+			if s.dialFail {
+				res[i].impl = fmt.Sprintf("dial=%d armed=%s up=-#- upeof=%d cl=%s cleof=%d ret=%d", l.dialT, c05B(l.armed), l.ret, l.clRecv.str(-1), l.clRecv.eofT, l.ret)
+				continue
+			}
 			// what reached the client in the very instant the relay both started and collapsed is a
 			// scheduling race between the two directions: not compared (the model driver drops it too);
 			// when the client had already reset, the failing write towards it may force-close the pair
@@ -754,7 +833,7 @@ func c05RunBatch(t *testing.T, cp *ControlPlane, ud *c05Dialer, scns []*c05Scn) 
 			drop, dropUp := int64(-1), int64(-1)
 			if l.ret == l.dialT {
 				drop = l.ret
-				if s.client.reset {
+				if s.client.reset || s.faulty() {
 					dropUp = l.ret
 				}
 			}
@@ -773,9 +852,9 @@ func c05RunBatch(t *testing.T, cp *ControlPlane, ud *c05Dialer, scns []*c05Scn) 
 		// the real eligibility predicate (port map, dial mode, sniffing timeout, outbound), not a re-implementation
 		dstAP := l.left.local.(*net.TCPAddr).AddrPort()
 		sniff := cp.shouldTryTcpSniff(dstAP, &bpfRoutingResult{Outbound: uint8(consts.OutboundControlPlaneRouting)}) && !s.negSkip
-		res[i].op = fmt.Sprintf("conn t0=%d p53=%s sniff=%s w=%d unpack=%s ctl=0 likely=%s nm=%s or=%s rcw=%s lcw=1 c=%s u=%s",
+		res[i].op = fmt.Sprintf("conn t0=%d p53=%s sniff=%s w=%d unpack=%s ctl=0 likely=%s nm=%s or=%s rcw=%s lcw=%s c=%s u=%s%s",
 			c05LookupDelay, c05B(s.port == 53), c05B(sniff), scns[0].window, c05B(unpack), c05B(likely), c05Ints(needMore), offers,
-			c05B(s.rcw), s.client.tok(), s.up.tok())
+			c05B(s.rcw), c05B(!s.noLcw), s.client.tok(), s.up.tok(), s.faultToks())
 	}
 	return res
 }
@@ -1105,7 +1184,70 @@ func c05GenScn(r *VRand, stats *VStats, forcedWindow int64) *c05Scn {
 	}
 	s.up.finT = u
 	s.up.reset = r.Chance(0.15)
+	c05GenFaults(r, stats, s, bound)
 	return s
+}
+
+// c05GenFaults adds — to about one scenario in four — what can go wrong around a connection besides the peers'
+// own behaviour: a client conn without CloseWrite, a write towards either peer failing at a byte offset
+// (boundary-heavy: 0, around the prefetch size, last byte, exactly everything), cancellation of handleConn's
+// context (times ≡ 3 mod 4: never in the instant of a peer event), a failing dial.
+func c05GenFaults(r *VRand, stats *VStats, s *c05Scn, bound int64) {
+	capFor := func(total int) int64 {
+		switch r.Intn(9) {
+		case 0:
+			return 0
+		case 1:
+			return 1
+		case 2:
+			return int64(15 + r.Intn(3))
+		case 3:
+			return int64(max(total-1, 0))
+		case 4:
+			return int64(total) // exactly everything fits: no failure
+		case 5:
+			return int64(total + 1 + r.Intn(50))
+		default:
+			return int64(r.Intn(total + 1))
+		}
+	}
+	if r.Chance(0.08) {
+		s.noLcw = true
+		stats.Inc("fault.client-conn-without-closewrite")
+	}
+	switch {
+	case r.Chance(0.06):
+		s.ucap = 1 + capFor(len(s.client.stream()))
+		stats.Inc("fault.write-to-upstream-fails")
+	case r.Chance(0.05):
+		s.ccap = 1 + capFor(len(s.up.stream()))
+		stats.Inc("fault.write-to-client-fails")
+	}
+	if r.Chance(0.07) {
+		var x int64
+		switch r.Intn(6) {
+		case 0: // anywhere, also during detection (discarded when it lands before the dial)
+			x = int64(r.Range(1, int(bound)))
+		case 1: // around the client's end
+			x = s.client.finT + int64(r.Range(-300, 300))*c05Ms
+		case 2: // inside the grace period after the first end
+			x = min(s.client.finT, s.up.finT) + int64(r.Range(1, 9999))*c05Ms
+		case 3: // after everything: no effect
+			x = max(s.client.finT, s.up.finT) + 11*c05Sec + int64(r.Range(1, 5000))*c05Ms
+		default:
+			x = bound + int64(r.Range(1, 20000))*c05Ms
+		}
+		if x < 8 {
+			x = 8
+		}
+		x -= x % 4
+		s.cancel = x + 3
+		stats.Inc("fault.context-cancelled")
+	}
+	if r.Chance(0.025) {
+		s.dialFail = true
+		stats.Inc("fault.dial-fails")
+	}
 }
 
 // c05Directed are the named scenarios of the property statement and of the findings.
@@ -1152,6 +1294,43 @@ func c05Directed() []*c05Scn {
 		{port: 22, window: 100 * c05Ms, rcw: true, kind: "d.client-eof-grace",
 			client: c05Script{evs: []c05Ev{lit(1, "request")}, finT: 101},
 			up:     c05Script{evs: []c05Ev{lit(5*c05Sec+2, "inside"), lit(11*c05Sec+2, "outside")}, finT: 12*c05Sec + 2}},
+		// ---- faults
+		// the upstream stops accepting bytes in the middle of the second client segment (partial write, then an error):
+		// it has received a prefix, both sides are closed at that moment
+		{port: 22, window: 100 * c05Ms, rcw: true, kind: "d.fault-upstream-write-fails-mid-segment", ucap: 1 + 9,
+			client: c05Script{evs: []c05Ev{lit(1, "hello"), lit(2*c05Sec+1, "second-segment"), lit(3*c05Sec+1, "never")}, finT: 4*c05Sec + 1},
+			up:     c05Script{evs: []c05Ev{lit(500*c05Ms+2, "banner")}, finT: 9*c05Sec + 2}},
+		// the write of the sniffed prefix itself fails (gather write of the ConnSniffer's buffer towards a broken upstream)
+		{port: 80, window: 100 * c05Ms, rcw: true, kind: "d.fault-upstream-write-fails-in-prefix", ucap: 1 + 7,
+			client: c05Script{evs: []c05Ev{lit(1, "GET / HTTP/1.1\r\nHost: fault.example\r\n\r\n")}, finT: 2*c05Sec + 1},
+			up:     c05Script{finT: 9*c05Sec + 2}, host: "fault.example"},
+		// …and right after the sniffed request went through in one piece
+		{port: 80, window: 100 * c05Ms, rcw: true, kind: "d.fault-upstream-write-fails-after-prefix", ucap: 1 + 40,
+			client: c05Script{evs: []c05Ev{lit(1, "GET / HTTP/1.1\r\nHost: fault2.example\r\n\r\n"), lit(1*c05Sec+1, "0123456789")}, finT: 2*c05Sec + 1},
+			up:     c05Script{finT: 9*c05Sec + 2}, host: "fault2.example"},
+		// the client stops accepting bytes after its half-close, inside the grace period
+		{port: 22, window: 100 * c05Ms, rcw: true, kind: "d.fault-client-write-fails-in-grace", ccap: 1 + 3,
+			client: c05Script{evs: []c05Ev{lit(1, "request")}, finT: 101},
+			up:     c05Script{evs: []c05Ev{lit(2*c05Sec+2, "answer")}, finT: 5*c05Sec + 2}},
+		// shutdown / reload while both peers are idle: everything sent before is delivered, the relay ends at the cancel
+		{port: 443, window: 100 * c05Ms, rcw: true, kind: "d.fault-context-cancelled-while-idle", cancel: 3*c05Sec + 3,
+			client: c05Script{evs: []c05Ev{lit(1, "\x16\x03\x01junk-not-a-hello"), lit(1*c05Sec+1, "more")}, finT: 20*c05Sec + 1},
+			up:     c05Script{evs: []c05Ev{lit(2*c05Sec+2, "reply")}, finT: 30*c05Sec + 2}},
+		// cancelled inside the grace period after the client's half-close
+		{port: 22, window: 100 * c05Ms, rcw: true, kind: "d.fault-context-cancelled-in-grace", cancel: 4*c05Sec + 3,
+			client: c05Script{evs: []c05Ev{lit(1, "request")}, finT: 1*c05Sec + 1},
+			up:     c05Script{evs: []c05Ev{lit(2*c05Sec+2, "early"), lit(6*c05Sec+2, "late")}, finT: 8*c05Sec + 2}},
+		// the dial fails after detection buffered bytes: nothing forwarded, client closed at the dial
+		{port: 53, window: 100 * c05Ms, rcw: true, kind: "d.fault-dial-fails", dialFail: true,
+			client: c05Script{evs: []c05Ev{lit(1, "SSH-2.0-OpenSSH_9.6\r\n")}, finT: 2*c05Sec + 1},
+			up:     c05Script{finT: 9*c05Sec + 2}},
+		// a client conn that cannot half-close (wrapped and bare): the upstream's FIN reaches it only at the end
+		{port: 80, window: 100 * c05Ms, rcw: true, kind: "d.fault-client-without-closewrite-wrapped", noLcw: true,
+			client: c05Script{evs: []c05Ev{lit(1, "hello"), lit(3*c05Sec+1, "still-sending")}, finT: 4*c05Sec + 1},
+			up:     c05Script{evs: []c05Ev{lit(500*c05Ms+2, "response:hello")}, finT: 600*c05Ms + 2}},
+		{port: 22, window: 100 * c05Ms, rcw: true, kind: "d.fault-client-without-closewrite-bare", noLcw: true,
+			client: c05Script{evs: []c05Ev{lit(1, "hello"), lit(30*c05Sec+1, "too-late")}, finT: 31*c05Sec + 1},
+			up:     c05Script{evs: []c05Ev{lit(500*c05Ms+2, "response:hello")}, finT: 600*c05Ms + 2}},
 	}
 }
 
